@@ -441,6 +441,40 @@ func TestVF_C20_Boundary(t *testing.T) {
 		w.cancel()
 		st.Case(vfshared.Fingerprint("tracker", mode), true, "two_streams_served_by_the_same_server_shard")
 	}
+	// reconnect overlap: the initiator re-establishes the stream of a shard pair while the handler of its previous
+	// incarnation has not returned yet; when the old one returns, the new one must still be listed
+	for _, mode := range []string{"default", "lcm"} {
+		c := c20Case{Mode: mode, L: 4, R: 8}
+		w := c20NewWorld(c)
+		oldInc := w.openHeld(vfStreamMD(2, 1, 1, 1))
+		newInc := w.openHeld(vfStreamMD(2, 1, 1, 1))
+		// only the old incarnation ends (its own stream and its own upstream)
+		oldInc.ss.PushEOF()
+		w.mu.Lock()
+		if len(w.heldClients) > 0 {
+			w.heldClients[0].PushEOF()
+			w.heldClients = w.heldClients[1:]
+		}
+		w.mu.Unlock()
+		select {
+		case <-oldInc.done:
+		case <-time.After(15 * time.Second):
+			t.Fatalf("HARNESS: the old incarnation did not end")
+		}
+		listed := 0
+		for _, si := range GetGlobalStreamTracker().GetActiveStreams() {
+			if si.Role == StreamRoleForwarder {
+				listed++
+			}
+		}
+		if listed == 0 {
+			cc := c20Case{Mode: mode, L: 4, R: 8, Opens: []c20Open{{Hold: true, MD: [4][]string{{"2"}, {"1"}, {"1"}, {"1"}}}, {Hold: true, MD: [4][]string{{"2"}, {"1"}, {"1"}, {"1"}}}}}
+			c20Fail(t, st, part, cc, fmt.Errorf("mode %s: a stream was re-established while its previous incarnation was still open; when the old one ended it took the new one's entry in the process-wide stream table with it (the new stream is open and served, the table lists no pass-through stream)", mode))
+		}
+		w.release(newInc)
+		w.cancel()
+		st.Case(vfshared.Fingerprint("tracker-overlap", mode), true, "reconnect_overlap_in_the_stream_table")
+	}
 	// the intra-proxy marker on a stream open (a peer proxy's stream, a mis-routed one, or anybody who sets the header):
 	// alone, and while an ordinary stream of the named server shard is open (so that shard is registered here)
 	for _, mode := range []struct {
